@@ -19,7 +19,7 @@
    complements of the selectors), c04_aug_square_registered, c04_aug_fixed_registered. *)
 From Coq Require Import List ZArith QArith Qround Qabs Bool.
 Import ListNotations.
-From SV Require Import C04.Geometry C04.Lemmas.
+From SV Require Import C04.Geometry C04.Lemmas C04.Lemmas2.
 Open Scope Q_scope.
 
 (* --- predicates defined in Lemmas.v, restated ---------------------------- *)
@@ -401,3 +401,168 @@ Example ex_c04_crop_size :
   find_instance_crop_size [[Some (10, 20); Some (130, 40)]] 0 16 1 (Some 100%Z) = 128%Z /\
   find_instance_crop_size [[Some (10, 20); Some (130, 40)]] 0 2 1 (Some 100%Z) = 100%Z.
 Proof. exact ex_crop_size_w. Qed.
+
+(* ======================================================================== *)
+(* round 2: padding position for whole pipelines, zero fill of crops, DataPipe versions,
+   augmentation stacks, crop size vs containment                             *)
+
+(* "padding is added only at the bottom and right", for the WHOLE chain size matcher ->
+   resizer -> stride pad (BottomUp / SingleInstance / Centroid datasets), both axes: the image
+   content starts exactly at the outer edge of the first pixel (content_lo = -1/2: nothing is
+   inserted at the top / left), is not mirrored (positive slope), is not empty and ends inside
+   the output (content_hi <= osize - 1/2: nothing is cut off) *)
+Theorem c04_pipe_full_padding_bottom_right : forall H W mh mw s st p,
+  (0 < H)%Z -> (0 < W)%Z -> (0 < dflt H mh)%Z -> (0 < dflt W mw)%Z ->
+  pipe_full H W mh mw s st = Some p ->
+  (content_lo (px p) == - (1 # 2) /\ - (1 # 2) < content_hi (px p) /\
+   content_hi (px p) <= zq (osize (px p)) - (1 # 2) /\ 0 < sl (cmap (px p))) /\
+  (content_lo (py p) == - (1 # 2) /\ - (1 # 2) < content_hi (py p) /\
+   content_hi (py p) <= zq (osize (py p)) - (1 # 2) /\ 0 < sl (cmap (py p))).
+Proof. exact pipe_full_padding. Qed.
+Print Assumptions c04_pipe_full_padding_bottom_right.
+
+Theorem c04_step_content_extents : forall n t o e s st, (0 < n)%Z ->
+  (content_lo (sm_axis n t o e) == - (1 # 2) /\ content_hi (sm_axis n t o e) == zq t - (1 # 2)) /\
+  (content_lo (resize_axis n s) == - (1 # 2) /\
+   content_hi (resize_axis n s) == zq (resizer_size n s) - (1 # 2)) /\
+  (content_lo (pad_axis n st) == - (1 # 2) /\ content_hi (pad_axis n st) == zq n - (1 # 2) /\
+   content_hi (pad_axis n st) <= zq (osize (pad_axis n st)) - (1 # 2)).
+Proof.
+  intros. split; [apply sm_axis_extent; assumption|]. split; [apply resize_axis_extent; assumption|].
+  apply pad_extent.
+Qed.
+Print Assumptions c04_step_content_extents.
+
+Example ex_c04_pipe_padding :
+  exists p, pipe_full 50 17 (Some 140%Z) (Some 60%Z) (1 # 2) 16 = Some p /\
+    content_lo (px p) == - (1 # 2) /\ osize (px p) = 32%Z /\ osize (py p) = 80%Z.
+Proof. exact ex_pipe_padding_w. Qed.
+
+(* crops near / across the image border (kornia crop_and_resize, zero padding): output pixel j
+   shows the source position (first corner + j) — the same shift the keypoints get — so it
+   carries image content exactly for j in crop_valid and is pure zero fill beyond
+   crop_zero_below / crop_zero_above: out-of-image regions are never wrapped or replicated *)
+Theorem c04_crop_zero_fill : forall c n_in n j, (1 < n)%Z -> (0 <= j < n)%Z ->
+  let x1 := fst (bbox_axis c n) in
+  ap (cmap (crop_axis c n_in n)) (x1 + zq j) == zq j /\
+  ap (kmap (crop_axis c n_in n)) (x1 + zq j) == zq j /\
+  ((fst (crop_valid x1 n_in n) <= j <= snd (crop_valid x1 n_in n))%Z <->
+   0 <= x1 + zq j /\ x1 + zq j <= zq n_in - 1) /\
+  ((j <= crop_zero_below x1)%Z <-> x1 + zq j <= - 1) /\
+  ((crop_zero_above x1 n_in <= j)%Z <-> zq n_in <= x1 + zq j).
+Proof.
+  intros c n_in n j Hn Hj x1. split; [apply crop_pixel_source; assumption|].
+  split; [destruct (crop_maps c n_in n (x1 + zq j) Hn) as [_ E]; rewrite E; subst x1; ring|].
+  apply crop_valid_spec. assumption.
+Qed.
+Print Assumptions c04_crop_zero_fill.
+
+Example ex_c04_crop_valid :
+  crop_valid (- (5 # 2)) 20 8 = (3, 7)%Z /\ crop_zero_below (- (5 # 2)) = 1%Z /\
+  crop_valid 16 20 8 = (0, 3)%Z /\ crop_zero_above 16 20 = 4%Z.
+Proof. exact ex_crop_valid_w. Qed.
+
+(* SizeMatcher (IterDataPipe; unlike apply_sizematcher it only pads): every yielded example has
+   the size (max_height, max_width), a max given as None being fixed by the FIRST image; the
+   iteration ends with the exception iff some image is larger than that; padding at the
+   bottom / right, keypoints and content untouched *)
+Theorem c04_sizematcher_datapipe : forall mh mw H0 W0 t l e,
+  smdp_run (mh, mw) ((H0, W0) :: t) = (l, e) ->
+  let a := dflt H0 mh in let b := dflt W0 mw in
+  Forall (fun o => o = (a, b)) l /\
+  (e = false <-> Forall (fits a b) ((H0, W0) :: t)) /\
+  (e = false -> length l = S (length t)).
+Proof. exact smdp_run_spec. Qed.
+Print Assumptions c04_sizematcher_datapipe.
+
+Theorem c04_sizematcher_datapipe_registered : forall n out x,
+  err (smdp_axis n out) x == 0 /\ content_lo (smdp_axis n out) == - (1 # 2) /\
+  content_hi (smdp_axis n out) == zq n - (1 # 2).
+Proof. exact smdp_axis_registered. Qed.
+Print Assumptions c04_sizematcher_datapipe_registered.
+
+Example ex_c04_smdp :
+  smdp_run (None, Some 40%Z) [(20, 30); (18, 40); (25, 10)]%Z = ([(20, 40); (20, 40)]%Z, true).
+Proof. exact ex_smdp_w. Qed.
+
+(* InstanceCropper: one crop per (centroid, instance) pair for the first num_instances pairs,
+   in order; each crop registered exactly, the centroid on the crop centre *)
+Theorem c04_instance_cropper : forall H W h w num items,
+  length (instance_cropper H W h w num items) = Nat.min num (length items) /\
+  (forall i it, (i < num)%nat -> nth_error items i = Some it ->
+     nth_error (instance_cropper H W h w num items) i = Some (crop_item H W h w it)).
+Proof. intros. split; [apply cropper_length | apply cropper_nth]. Qed.
+Print Assumptions c04_instance_cropper.
+
+Theorem c04_crop_item_registered : forall H W h w cx cy pts, (1 < h)%Z -> (1 < w)%Z ->
+  let sx := crop_axis cx W w in let sy := crop_axis cy H h in
+  fst (crop_item H W h w ((cx, cy), pts)) = map (step_kp sx sy) pts /\
+  snd (crop_item H W h w ((cx, cy), pts)) = Some (ap (kmap sx) cx, ap (kmap sy) cy) /\
+  ap (kmap sx) cx == (zq w - 1) / 2 /\ ap (kmap sy) cy == (zq h - 1) / 2 /\
+  (forall x, err sx x == 0) /\ (forall y, err sy y == 0).
+Proof. exact crop_item_registered. Qed.
+Print Assumptions c04_crop_item_registered.
+
+(* augmentation stacks (apply_geometric_augmentation = [affine; erase; mixup],
+   apply_intensity_augmentation = [uniform; gaussian; contrast; brightness], KorniaAugmenter =
+   all seven): an operation is present only if its probability is > 0; keypoints are moved by
+   the matrices of the APPLIED affine operations and by nothing else — random erasing, mixup,
+   noise, contrast, brightness and an affine whose draw was "not applied" return every
+   keypoint exactly (Leibniz equality, NaN / missing included) *)
+Theorem c04_stack_only_applied_affine_moves : forall entries p,
+  stack_kp entries p = fold_left (fun q m => apply_mat m q) (applied_mats entries) p.
+Proof. exact stack_kp_mats. Qed.
+Print Assumptions c04_stack_only_applied_affine_moves.
+
+Theorem c04_stack_without_applied_affine_is_identity : forall entries p,
+  forallb (fun e => negb (moves e)) entries = true -> stack_kp entries p = p.
+Proof. exact stack_no_affine. Qed.
+Print Assumptions c04_stack_without_applied_affine_is_identity.
+
+Theorem c04_stack_one_affine : forall pre m post p,
+  forallb (fun e => negb (moves e)) pre = true -> forallb (fun e => negb (moves e)) post = true ->
+  stack_kp (pre ++ (OpAffine m, true) :: post) p = apply_mat m p.
+Proof. exact stack_one_affine. Qed.
+Print Assumptions c04_stack_one_affine.
+
+Theorem c04_stack_wrapper : forall entries n insts, Forall (fun r => length r = n) insts ->
+  aug_wrapper (map (stack_kp entries)) n insts = map (map (stack_kp entries)) insts.
+Proof. intros. apply wrapper_pointwise. assumption. Qed.
+Print Assumptions c04_stack_wrapper.
+
+Theorem c04_build_stack_positive_p : forall cfg o,
+  In o (build_stack cfg) -> exists p, In (o, p) cfg /\ 0 < p.
+Proof. exact build_stack_in. Qed.
+Print Assumptions c04_build_stack_positive_p.
+
+Example ex_c04_stack :
+  stack_kp [(OpAffine ((2, 0, 1), (0, 2, 1)), true); (OpErase, true); (OpMixup, true)] (Some (3, 4)) = Some (2 * 3 + 0 * 4 + 1, 0 * 3 + 2 * 4 + 1) /\
+  stack_kp [(OpAffine ((2, 0, 1), (0, 2, 1)), false); (OpErase, true)] (Some (3, 4)) = Some (3, 4) /\
+  build_stack [(OpAffine mat_id, 0); (OpErase, 1); (OpMixup, 1 # 2)] = [OpErase; OpMixup].
+Proof. exact ex_stack_w. Qed.
+
+(* find_instance_crop_size covers in the sense the crops need: a crop of the computed size
+   centred on the bounding-box midpoint of an instance's (scaled) visible keypoints — the
+   centroid used when anchor_part is None — contains every visible keypoint of that instance
+   on both axes (any instance of the labels, partially labelled ones included) *)
+Theorem c04_crop_size_contains_instance : forall insts padding stride scale min_crop n_in inst x y,
+  (0 < stride)%Z -> (0 <= padding)%Z ->
+  ~ ((0 < dflt 0 min_crop)%Z /\ (dflt 0 min_crop mod stride = 0)%Z) ->
+  In inst insts -> In (Some (x, y)) inst ->
+  let r := find_instance_crop_size insts padding stride scale min_crop in
+  let cx := midpoint (map (Qmult scale) (vis_xs inst)) in
+  let cy := midpoint (map (Qmult scale) (vis_ys inst)) in
+  (1 < r)%Z ->
+  in_extent r (ap (kmap (crop_axis cx n_in r)) (scale * x)) /\
+  in_extent r (ap (kmap (crop_axis cy n_in r)) (scale * y)).
+Proof. exact crop_size_contains. Qed.
+Print Assumptions c04_crop_size_contains_instance.
+
+Example ex_c04_crop_contains :
+  find_instance_crop_size [[Some (10, 20); None; Some (130, 40)]] 16 16 1 None = 144%Z.
+Proof. exact ex_crop_contains_w. Qed.
+
+(* KorniaAugmenter (IterDataPipe) builds RandomAffine WITHOUT align_corners=True (only
+   apply_geometric_augmentation was repaired): its content map is warp_content false, so
+   c04_aug_square_error / c04_aug_square_registered are the strongest true statements for it
+   and c04_aug_nonsquare_refuted is its refutation (finding F04p, same witness matrix). *)
